@@ -15,12 +15,12 @@ import (
 // (parameter spills, captured variables).  Conversions are NOT looked through
 // unless conv is true (string<->[]byte<->named forms copy or rename a value
 // without changing its bytes).
-func Origin(v ssa.Value) ssa.Value { return origin(v, false, 0) }
+func Origin(v ssa.Value) ssa.Value { return origin(v, false, 0, nil) }
 
 // OriginConv is Origin that also looks through Convert.
-func OriginConv(v ssa.Value) ssa.Value { return origin(v, true, 0) }
+func OriginConv(v ssa.Value) ssa.Value { return origin(v, true, 0, nil) }
 
-func origin(v ssa.Value, conv bool, depth int) ssa.Value {
+func origin(v ssa.Value, conv bool, depth int, seen map[*ssa.Phi]bool) ssa.Value {
 	for depth < 64 {
 		depth++
 		switch x := v.(type) {
@@ -53,10 +53,20 @@ func origin(v ssa.Value, conv bool, depth int) ssa.Value {
 			v = st.Val
 		case *ssa.Phi:
 			// phi of identical origins
+			if seen[x] {
+				return v
+			}
+			if seen == nil {
+				seen = map[*ssa.Phi]bool{}
+			}
+			seen[x] = true
 			var first ssa.Value
 			for _, e := range x.Edges {
-				o := origin(e, conv, depth)
+				o := origin(e, conv, depth, seen)
 				if o == x {
+					continue
+				}
+				if p2, ok := o.(*ssa.Phi); ok && seen[p2] {
 					continue
 				}
 				if first == nil {
